@@ -2,14 +2,17 @@
 import os
 from common import *
 
-RULE = ("structured records (`rec`): locus (name, length, one of poly's 12 molecule types or none, topology, division, date), six "
-        "metadata texts of single-spaced ASCII words with log-uniform length to MAXMETA characters (wrapping from 69), 0..5 references "
+RULE = ("structured records (`rec`): locus (name or none, length, one of poly's 12 molecule types or none, topology, division, date, unit), six "
+        "metadata texts of ASCII words (single blanks; in 30 % of the free records 2 % of the gaps are runs of 2-3 blanks) with log-uniform "
+        "length to MAXMETA characters (wrapping from 69), 0..5 references (Index positional, rarely unset / renumbered) "
         "(optional AUTHORS/TITLE/JOURNAL/PUBMED/REMARK), 0..4 extra keyword blocks (keys of 1..11 columns), 0..MAXFEAT features with "
         "0..8 qualifiers (printable ASCII values, to several hundred characters, never wrapped by the writer), location either cached "
-        "text or structural (span / complement / join / nested, partial markers), sequence length log-uniform 1..MAXSEQ; and records in "
+        "text or structural (span incl. {0,0} and reversed / complement incl. of a complement / join / Join-less multi-operand node / nested, "
+        "partial markers), sequence length log-uniform 1..MAXSEQ; half of the records are drawn inside the domain of parse_build_partial; and records in "
         "the image of the REAL parser (`img`): the same generated records laid out as NCBI-style or poly-style flat files (wrap widths, "
         "wrapped qualifiers, multi-line locations, final newline or not) plus the single-record files of /repo/data. Every record is "
-        "built 24 times in one process with its maps refilled in varying orders. non-trivial = at least one feature or one wrapped "
+        "built 24 times in one process with its maps refilled in varying orders, and its first output is HELD while a different record is "
+        "built and compared with a copy taken at once. non-trivial = at least one feature or one wrapped "
         "metadata block; distinct by case text")
 EXHAUSTIVE = {"quick": False, "thorough": False}
 TRUSTED_BASE = ["Spec/GbStrict.lean: the strict column reader standing for 'an independent reader' (typed from the NCBI flat-file description)",
@@ -19,18 +22,44 @@ TRUSTED_BASE = ["Spec/GbStrict.lean: the strict column reader standing for 'an i
                 "Model/Genbank.lean + Lemmas/Genbank*.lean (property C01): the parser model and its composition theorem parseLoop_layout, on which parse_build_partial rests"]
 ASSUMPTIONS = ["all text is printable ASCII",
                "a Go map is an association list with distinct keys; its iteration order is a universally quantified parameter of build",
-               "'equal locations' is read modulo the partial markers of join/complement NODES (derived from the spans below by the parser, never read by the writer)",
-               "domain decisions taken from the property text (each is a decidable conjunct of wfLayout / wfSeq in Spec/GbStrict.lean): a record has a "
-               "non-empty blank-free locus name, a numeric or empty length, a molecule type from poly's own list or none; metadata is single-spaced; "
-               "extra keyword names are not the writer's own keywords and fit the keyword field; feature keys fit columns 6-20; reference numbers "
-               "are positions; a cached location text denotes the record's location; qualifier values do not begin or end with a quotation mark"]
-PARTIAL = ["parse_build (WFSeq x → parse (build x o) ≈ ok x over the parser model of property C01): proved as parse_build_partial under the "
-           "decidable hypothesis `covered x` = wfSeq x AND the record is expressible in C01's abstract record type (molecule type DNA/mRNA/tRNA/rRNA, "
-           "one topology, a division, a dated LOCUS line whose length field equals the number of bases, extra keywords of <= 10 capitals, "
-           "qualifier keys over [a-z0-9_], no quotation mark in values) AND every REFERENCE line has a range and fits on one line. Missing: C01's "
-           "composition theorem is stated for that record type only; the wrapped REFERENCE line. On the remaining in-domain records the clause "
-           "rests on correspondence: the real Parse(Build(x)) ≈ x is judged on every case, and the parser model is compared with the real parser "
-           "on every written text (class tag /pb = case inside the theorem's domain)"]
+               "'equal locations' is read modulo derived data of nodes WITH operands (never read by BuildLocationString / getFeatureSequence): their "
+               "partial markers (the parser sets them on every ancestor of a marked span) and the Join flag of a node with several operands "
+               "(normLoc); the expected text of a structural location in `abs` is Location.buildLoc, property C02's model: for structural "
+               "locations the layout judgement is correspondence with C02's text, not an independent expectation",
+               "the independent reader accepts lines of any length (Build never wraps qualifier values; a 600-letter /translation is one line) and "
+               "reads the LOCUS line by tokens, not by NCBI's LOCUS columns (Build separates the fields by five blanks)",
+               "SequenceCoding is compared only when the record says `bp` and has a length: Build writes the constant ` bp` and has no parameter for another unit",
+               "EXCLUDED from 'every generated structured record', each a decidable conjunct of wfLayoutJ / wfSeqJ (Spec/GbStrict.lean) with its reason: "
+               "a blank at either END of a metadata value (the keyword line cannot delimit it; genbank.Parse trims, so the parser's image has none); "
+               "tabs, newlines, non-ASCII; a locus name with a blank; a non-numeric length; a molecule type outside poly's own list; an extra keyword "
+               "that does not fit columns 1-11 or is one of the writer's own; a feature key longer than columns 6-20; Circular && Linear; a qualifier "
+               "value beginning or ending with a quotation mark, a qualifier key with '/' or '='; a cached location text that does not denote the "
+               "structure; Start/End on a node with operands, Join without operands, a one-operand node that is neither a join nor a double "
+               "complement; a sequence with non-letters or of length 0",
+               "IN the domain since the review (and judged): metadata with runs of blanks, name-less records, any Reference.Index (three known "
+               "findings); features without location {0,0}, reversed / negative spans, Join-less multi-operand nodes, complement of complement (all pass)"]
+PARTIAL = ["build_strict_layout_partial: proved for WFLayout (single-spaced metadata, non-empty name); the judge's domain wfLayoutJ also holds metadata "
+           "with runs of blanks and name-less records, where the clause FAILS exactly on the known findings C03-blank-run-at-wrap (witness "
+           "blank_run_at_wrap_record_witness) and C03-nameless-locus (witness nameless_locus_witness); a record with blank runs none of which "
+           "falls on a wrap point satisfies the clause (judged on every such case) but is outside the proved hypothesis",
+           "parse_build (WFSeq x → parse (build x o) ≈ ok x over the parser model of C01): proved as parse_build_partial (Props/C03Parse.lean) under "
+           "`covered x`. Conjuncts of `covered` beyond wfSeq and why each remains (all because C01's composition theorem parseLoop_layout is stated "
+           "for C01's record type GbRec / layout): (1) molecule type one of DNA/mRNA/tRNA/rRNA [GbRec.MolType has four constructors]; (2) exactly one "
+           "of Circular/Linear [RLocus.topo is not optional]; (3) a division [RLocus.division is an index]; (4) a date with a real month [isDateText; no "
+           "empty date]; (5) SequenceLength = decimal number of bases [locusLine writes ofNat seq.length]; (6) every REFERENCE has a range [refHead "
+           "writes `1` where Build writes `1` + two blanks] and number+range fit on one line [a break of WrapString inside the range needs the bridge "
+           "lemma for texts with a blank run; not done]; (7) extra keywords of <= 10 capitals [isExtraKey]; (8) qualifier keys over [A-Za-z0-9_] "
+           "[isQualKeyChar]; (9) no quotation mark in values [GbLayout.wfQual]; (10) feature keys / location texts over C01's character sets "
+           "[isFeatKeyChar, isLocChar / isLocText: no '-' of a negative coordinate]; (11) single-spaced metadata, name present, positional Index [wfSeq: the three "
+           "known findings]. A request to generalise GbRec is in notes/requests/C01-from-C03.md",
+           "parse_build_partial compares the location TEXT of each feature (Genbank.parse leaves parseLocation to C02). That the STRUCTURE "
+           "parseLocation derives from that text equals the record's SequenceLocation (modulo normLoc) rests on (a) wfSeq's conjunct cacheConsistent for "
+           "cached texts and (b) property C02's theorem parsed_structure (Props/C02.lean: parseLocation (print l) = ok (pembed l)) together with "
+           "build_parsed_is_insdc_lenient for structural ones; in this check it is judged on every case: the real SequenceLocation of "
+           "Parse(Build(x)) is compared with x's by locBeq ∘ normLoc",
+           "known findings (judge FAILS, tagged): C03-blank-run-at-wrap, C03-nameless-locus, C03-reference-number (witness reference_number_witness: "
+           "Build never reads Reference.Index)"]
+PROOF_MODULES = ["PolyVerif.Props.C03", "PolyVerif.Props.C03Parse"]
 
 MOLTYPES = ["DNA", "genomic DNA", "genomic RNA", "mRNA", "tRNA", "rRNA", "other RNA", "other DNA",
             "transcribed RNA", "viral cRNA", "unassigned DNA", "unassigned RNA"]
@@ -51,8 +80,11 @@ SUBKW = ["ORGANISM", "AUTHORS", "TITLE", "JOURNAL", "PUBMED", "REMARK"] * 4 + ["
 AA = "ACDEFGHIKLMNPQRSTVWY"
 
 
+RUNS = [False]   # set per record: metadata may hold runs of 2-3 blanks (2 % of the gaps), as the parser's image does
+
+
 def text(r, maxlen, p_empty=0.1, kw=False):
-    """single-spaced ASCII words, total length log-uniform up to maxlen"""
+    """ASCII words separated by single blanks (or, when RUNS[0], now and then by 2-3), total length log-uniform up to maxlen"""
     if r.random() < p_empty:
         return ""
     target = loglen(r, 1, maxlen)
@@ -75,6 +107,11 @@ def text(r, maxlen, p_empty=0.1, kw=False):
         n += len(w) + (1 if len(words) > 1 else 0)
         if n >= target:
             break
+    if RUNS[0]:
+        out = words[0]
+        for w in words[1:]:
+            out += (" " if r.random() > 0.02 else r.choice(["  ", "   "])) + w
+        return out[:maxlen].rstrip(" ")
     return " ".join(words)
 
 
@@ -107,13 +144,26 @@ def gen_loc(r, seqlen, depth=0):
             e = s + 1
         return ("span", s, e, r.random() < 0.12, r.random() < 0.12)
     u = r.random()
+    if u < 0.03:
+        return ("span", 0, 0, False, False)            # a feature assembled without location
+    if u < 0.05:
+        s = r.randrange(0, seqlen); return ("span", s, r.randrange(0, s + 1), False, False)   # stop <= start
     if depth >= 3 or u < 0.5:
         return span()
     if u < 0.7:
         n = gen_loc(r, seqlen, depth + 1)
-        return n if n[0] == "compl" else ("compl", n)
+        return ("compl", n)                            # also the complement of a complement
     k = r.choice([1, 2, 2, 3, 4, 6])
-    return ("join", [gen_loc(r, seqlen, depth + 1) for _ in range(k)])
+    ops = [gen_loc(r, seqlen, depth + 1) for _ in range(k)]
+    return ("join", ops) if (k == 1 or r.random() < 0.7) else ("group", ops)   # group: several operands, Join unset
+
+
+def loc_has(t, p):
+    if p(t):
+        return True
+    if t[0] == "span":
+        return False
+    return loc_has(t[1], p) if t[0] == "compl" else any(loc_has(x, p) for x in t[1])
 
 
 def loc_flags(t):
@@ -126,14 +176,20 @@ def loc_flags(t):
 
 
 def loc_ser(t, propagate, compl=False):
-    """poly.Location serialisation "(start end cjft subs...)"; propagate = partial markers also on join nodes (as the parser sets them)"""
+    """poly.Location serialisation "(start end cjft subs...)"; propagate = partial markers also on nodes with operands
+    (as the parser sets them); compl = set Complement on this (non-complement) node"""
     b = lambda x: "1" if x else "0"
     if t[0] == "span":
         return "(%d %d %s0%s%s)" % (t[1], t[2], b(compl), b(t[3]), b(t[4]))
     if t[0] == "compl":
-        return loc_ser(t[1], propagate, True)
+        if t[1][0] != "compl":
+            return loc_ser(t[1], propagate, True)
+        # the complement of a complement: a node of its own around the complemented operand
+        f5, f3 = loc_flags(t) if propagate else (False, False)
+        return "(0 0 10%s%s %s)" % (b(f5), b(f3), loc_ser(t[1], propagate))
     f5, f3 = loc_flags(t) if propagate else (False, False)
-    return "(0 0 %s1%s%s %s)" % (b(compl), b(f5), b(f3), " ".join(loc_ser(x, propagate) for x in t[1]))
+    return "(0 0 %s%s%s%s %s)" % (b(compl), "1" if t[0] == "join" else "0", b(f5), b(f3),
+                                  " ".join(loc_ser(x, propagate) for x in t[1]))
 
 
 def loc_text(t, insdc):
@@ -147,13 +203,14 @@ def loc_text(t, insdc):
         return ("<" if fp else "") + str(s + 1) + ".." + str(e) + (">" if tp else "")
     if t[0] == "compl":
         return "complement(" + loc_text(t[1], insdc) + ")"
-    return "join(" + ",".join(loc_text(x, insdc) for x in t[1]) + ")"
+    return "join(" + ",".join(loc_text(x, insdc) for x in t[1]) + ")"      # join and group alike
 
 
 # ---- records
 
 def gen_record(r, maxseq, maxfeat, maxmeta, cached_mode, shadow=False, covered=False):
     """covered=True: a record in the domain of theorem parse_build_partial (C01's abstract record type)"""
+    RUNS[0] = (not covered) and r.random() < 0.3
     n = loglen(r, 1, maxseq)
     alphabet = r.choice(["acgt", "acgt", "ACGT", "acgtnrykmswbdhv", "ACGTacgtNn", "acgu"])
     seq = randword(r, alphabet, n)
@@ -174,13 +231,16 @@ def gen_record(r, maxseq, maxfeat, maxmeta, cached_mode, shadow=False, covered=F
         "seqlen": str(n) if (covered or r.random() < 0.85) else r.choice(["", "7", "42", "123456"]),
         "mol": mol, "div": r.choice(DIVISIONS + ([] if covered else [""])),
         "date": "%02d-%s-%04d" % (r.randint(1, 31), r.choice(MONTHS), r.randint(1980, 2030)) if (covered or r.random() < 0.9) else "",
-        "coding": "bp", "circ": u < 0.4, "lin": 0.4 <= u < 0.9,
+        "coding": "bp" if (covered or r.random() < 0.9) else r.choice(["", "aa", "rc"]), "circ": u < 0.4, "lin": 0.4 <= u < 0.9,
         "defi": text(r, maxmeta), "acc": text(r, 40), "ver": text(r, 40), "kw": text(r, maxmeta // 4),
         "src": text(r, maxmeta // 2, kw=r.random() < 0.15), "org": text(r, maxmeta),
     }
+    if (not covered) and r.random() < 0.02:
+        rec["name"] = ""                                # a record assembled without a locus name (known finding)
     refs = []
-    for i in range(r.choice([0, 0, 1, 1, 2, 3, 5])):
-        refs.append((str(i + 1), text(r, maxmeta // 2, 0.2, kw=r.random() < 0.15), text(r, maxmeta // 2, 0.2, kw=r.random() < 0.15),
+    renumber = (not covered) and r.random() < 0.04      # Reference.Index unset / not the position (known finding)
+    for i in range(r.choice([0, 0, 1, 1, 2, 3, 4, 5])):
+        refs.append((r.choice(["", str(i + 2), "7"]) if renumber else str(i + 1), text(r, maxmeta // 2, 0.2, kw=r.random() < 0.15), text(r, maxmeta // 2, 0.2, kw=r.random() < 0.15),
                      text(r, 200, 0.2), text(r, 12, 0.4), text(r, maxmeta // 2, 0.5),
                      "" if (r.random() < 0.15 and not covered) else
                      ("(bases %d to %d)" % (r.randint(1, n), n) if (covered or r.random() < 0.85) else
@@ -199,12 +259,13 @@ def gen_record(r, maxseq, maxfeat, maxmeta, cached_mode, shadow=False, covered=F
         cached = {"all": True, "none": False, "mixed": r.random() < 0.5}[cached_mode]
         insdc = r.random() < 0.3
         qk = r.sample(QUAL_KEYS, r.randint(0, 8))
-        if covered:
-            qk = [k for k in qk if k == k.lower()]
         attrs = [(k, qual_value(r, k).replace('"', "'") if covered else qual_value(r, k)) for k in qk]
+        if covered and loc_has(t, lambda q: q[0] == "span" and q[1] < 0):
+            t = ("span", 0, 1, False, False)
         feats.append((r.choice(FEATURE_KEYS), loc_text(t, insdc) if cached else "", loc_ser(t, cached or r.random() < 0.5), attrs, t))
     rec["feats"] = feats
     rec["seq"] = seq
+    RUNS[0] = False
     return rec
 
 
@@ -287,12 +348,11 @@ def layout(r, R, style):
                 qs = [q[i:i + qwidth] for i in range(0, len(q), qwidth)] if k == "translation" else [q]
             else:
                 qs = wrap(q, qwidth)
-            # a continuation line beginning with '/' would be read as a new qualifier: keep such values on one line
-            if any(x.startswith("/") for x in qs[1:]) or any(x == "" for x in qs):
+            if any(x == "" for x in qs):
                 qs = [q]
             for x in qs:
                 out.append(" " * 21 + x)
-    out.append("ORIGIN")
+    out.append("ORIGIN" if r.random() < 0.7 else "ORIGIN      ")
     s = R["seq"]
     for i in range(0, len(s), 60):
         out.append("%9d %s" % (i + 1, " ".join(s[i + j:i + j + 10] for j in range(0, min(60, len(s) - i), 10))))
